@@ -411,7 +411,7 @@ struct Sim {
         if (inf.nout) s.op.mask = (uint8_t)rng.below(1u << inf.nout);
         if (rng.chance(0.15) && (op == OP_INTERP_SLERP || op == OP_TM_PLUSEQ || op == OP_TM_MINUSEQ)) s.op.variant |= V_ALT;
         if (op == OP_M_MOVE_ASSIGN && rng.chance(0.6)) { s.op.variant |= V_ALT; s.op.kb = K_MAP; }
-        if (op == OP_M_MOVE_ASSIGN || op == OP_TM_MOVE_ASSIGN) s.op.c = (uint8_t)rng.below(12);
+        if (op == OP_M_MOVE_ASSIGN || op == OP_TM_MOVE_ASSIGN || op == OP_CTOR) s.op.c = (uint8_t)rng.below(20);
         if (rng.chance(0.3)) s.op.variant |= V_FRESH;
         if (op == OP_COEFFS && rng.chance(0.5)) s.op.variant |= V_ALT;
         if (rng.chance(0.3) && op == OP_LOG && (vt->caps & (CAP_ASSO3 | CAP_BUNDLE))) s.op.variant |= V_SUB;
